@@ -88,10 +88,13 @@ class Tree:
 
 
 def generate(rng, depth=2, n_files=14, symlinks=True, outside_links=False, big=False, root_index=None, plant_secrets=True,
-             sizes=None, tag="t", root_404=None):
+             sizes=None, tag="t", root_404=None, root_name=None):
     t = Tree()
     t.base = core.scratch("tree-")
-    t.root = os.path.join(t.base, "outer2", "outer1", "root")
+    # where the served directory lives is the owner's business: its name may contain URL delimiters and non-ASCII text
+    # (blank, quotes, '&', '|', ';' are refused by the file-ext dependency: C02 has a phase of its own for them, a known finding)
+    rootname = rng.choice(["root", "root", "root", "release#7", "r?t", "r\u00f6ot", "root.d", "C#", "100%", "a=b", "-root", "(x)", "x,y", "[r]", "~r"]) if root_name is None else root_name
+    t.root = os.path.join(t.base, "outer2", "outer1", rootname)
     os.makedirs(t.root)
     t.depth = depth
     sizes = sizes or (SIZES_T if big else SIZES_Q)
